@@ -53,6 +53,10 @@ CHECKS = {
    text="Core.tla (checked by TLC) enumerates the request classes - 9 methods x parameter classes x id kinds x handler outcomes - with the reactions the property admits; every class, plus envelope / path / syntax mutations, is concretised to bytes and sent by a raw peer to Streamable JSON / SSE / stateless / sessions-disabled, legacy SSE and stdio servers; every exchange (status and every frame, re-encoded as tagged trees) is validated by TLC against TraceWellFormed, i.e. against the message grammar MsgGrammar.tla (JSON-RPC envelope, exactly one of result/error, error object, result shape per method, content items, descriptors) and Core's reaction set, including 'never an empty or successful 2xx for an input that is not served'.",
    note="Trusted: TLC, the reference peer and SSE parser, the hand-written grammar (subset of MCP 2025-03-26 the library uses). Where the statement is silent (version-less envelopes, exotic id types, junk params of list methods) both serving and refusing are admitted; a response may echo an exotic id of its own request.",
    technique="TLA+ enumeration of request classes + replay on 6 server kinds + TLC validation of every exchange against a TLA+ message grammar"),
+ "C14": dict(level="exploration", design="DESIGN.md §5 C14",
+   text="Core.tla (checked by TLC) is the single reference: every request class of the 8 common methods x id kinds x 3 registration sets is sent as identical bytes to Streamable JSON / SSE / stateless / sessions-disabled, legacy SSE and stdio servers; the normalised answers must be pairwise equal (same result up to list order, or the same error code) and admitted by Core; a scripted server gives the same 23 answers (every content kind, structured content, error answers, lists, prompt messages, resource contents) to the library's Streamable (JSON and SSE answers), legacy SSE and stdio clients and the returned values / error classes must agree; the answer tables are validated by TLC against TraceParity.",
+   note="Trusted: TLC, the raw peer, the scripted server and the scripted stdio child. Compared up to the order of listed items and the wording of error messages.",
+   technique="TLA+ reference (Core) + identical-bytes replay on 6 server kinds and 4 client configurations + TLC validation of the answer tables"),
 }
 NA = {
  "C20": "data-race freedom is a statement about individual memory accesses under the Go memory model; an abstract state-machine specification has no notion of them (see DESIGN.md §6)",
